@@ -378,3 +378,128 @@ Proof.
   pose proof (final_errc c s Hc Hr Hf Hi) as Herr.
   destruct (failures_final c s k elig Hc Ha Hm Hr Hf Hi Hnd He) as [[H1 H2]|(H1 & H2 & H3)]; lia.
 Qed.
+
+(** ** A computable characterisation of the eligible nodes *)
+(** [fanc c fuel n]: some node with a path of at most [fuel] edges to [n] fails *)
+Fixpoint fanc (c : cfg) (fuel : nat) (n : nat) : bool :=
+  match fuel with
+  | 0 => false
+  | S f => existsb (fun p => fails c p || fanc c f p) (preds (g c) n)
+  end.
+Definition eligibleb (c : cfg) (n : nat) : bool :=
+  fails c n && negb (fanc c (length (nodes (g c))) n).
+Definition eligibles (c : cfg) : list nat := filter (eligibleb c) (nodes (g c)).
+
+Lemma fanc_sound c fuel n : fanc c fuel n = true -> exists m, reach (g c) m n /\ fails c m = true.
+Proof.
+  revert n. induction fuel as [|f IH]; intros n H; [discriminate|]. cbn in H.
+  apply existsb_exists in H. destruct H as (p & Hp & H). apply in_preds in Hp.
+  apply orb_true_iff in H. destruct H as [H|H].
+  - exists p. split; [apply reach1; exact Hp|exact H].
+  - destruct (IH p H) as (m & Hm & Hfm). exists m. split; [eapply reachS; eauto|exact Hfm].
+Qed.
+
+Lemma rank_reach gr (rank : nat -> nat) :
+  (forall a b, edge gr a b -> rank a < rank b) -> forall x y, reach gr x y -> rank x < rank y.
+Proof.
+  intros Hrank x y Hxy. induction Hxy as [x y Hxy|x z y _ IH Hzy].
+  - apply (Hrank x y Hxy).
+  - pose proof (Hrank z y Hzy). lia.
+Qed.
+
+Lemma fanc_complete c (rank : nat -> nat) :
+  (forall a b, edge (g c) a b -> rank a < rank b) ->
+  forall m n, reach (g c) m n -> fails c m = true -> forall fuel, rank n - rank m <= fuel -> fanc c fuel n = true.
+Proof.
+  intros Hrank m n Hr Hf. induction Hr as [a b Hab|a k b Hak IH Hkb]; intros fuel Hle.
+  - pose proof (Hrank a b Hab). destruct fuel as [|f]; [lia|]. cbn. apply existsb_exists.
+    exists a. split; [apply in_preds; exact Hab|]. rewrite Hf. reflexivity.
+  - pose proof (Hrank k b Hkb). pose proof (rank_reach _ rank Hrank a k Hak).
+    destruct fuel as [|f]; [lia|]. cbn. apply existsb_exists.
+    exists k. split; [apply in_preds; exact Hkb|]. rewrite (IH Hf f) by lia. apply orb_true_r.
+Qed.
+
+(** an acyclic well-formed graph has a ranking bounded by the number of nodes *)
+Lemma filter_lt {A} (f h : A -> bool) k l :
+  (forall x, f x = true -> h x = true) -> In k l -> f k = false -> h k = true ->
+  length (filter f l) < length (filter h l).
+Proof.
+  intros Himp. assert (Hle : forall l', length (filter f l') <= length (filter h l')).
+  { induction l' as [|a l' IH]; [reflexivity|]. cbn. destruct (f a) eqn:Ef.
+    - rewrite (Himp a Ef). cbn. lia.
+    - destruct (h a); cbn; lia. }
+  induction l as [|a l IH]; intros Hin Hfk Hhk; [destruct Hin|]. destruct Hin as [->|Hin].
+  - cbn. rewrite Hfk, Hhk. cbn. specialize (Hle l). lia.
+  - specialize (IH Hin Hfk Hhk). cbn. destruct (f a) eqn:Ef.
+    + rewrite (Himp a Ef). cbn. lia.
+    + destruct (h a); cbn; lia.
+Qed.
+
+Lemma bounded_rank gr :
+  graph_wf gr -> acyclic gr ->
+  exists rank : nat -> nat, (forall a b, edge gr a b -> rank a < rank b) /\
+    forall n, In n (nodes gr) -> rank n < length (nodes gr).
+Proof.
+  intros [_ Hwf] [rank Hrank].
+  exists (fun n => length (filter (fun m => rank m <? rank n) (nodes gr))). split.
+  - intros a b Hab. pose proof (Hrank a b Hab) as Hlt. apply (filter_lt _ _ a).
+    + intros x Hx. apply Nat.ltb_lt in Hx. apply Nat.ltb_lt. lia.
+    + apply (Hwf a b Hab).
+    + apply Nat.ltb_irrefl.
+    + apply Nat.ltb_lt. exact Hlt.
+  - intros n Hn.
+    assert (Ht : forall l : list nat, length (filter (fun _ => true) l) = length l).
+    { induction l as [|a l IH]; [reflexivity|]. cbn. rewrite IH. reflexivity. }
+    rewrite <- (Ht (nodes gr)). apply (filter_lt _ _ n); auto. apply Nat.ltb_irrefl.
+Qed.
+
+Lemma eligibleb_spec c n :
+  cfg_ok c -> acyclic (g c) -> In n (nodes (g c)) -> (eligibleb c n = true <-> eligible c n).
+Proof.
+  intros [Hwf _] Ha Hn. destruct (bounded_rank (g c) Hwf Ha) as (rank & Hrank & Hb).
+  unfold eligibleb, eligible. rewrite andb_true_iff, negb_true_iff. split.
+  - intros [Hf Hna]. repeat split; auto. intros m Hmn. destruct (fails c m) eqn:Hfm; auto.
+    rewrite (fanc_complete c rank Hrank m n Hmn Hfm) in Hna; [discriminate|].
+    specialize (Hb n Hn). lia.
+  - intros (_ & Hf & Hanc). split; auto. destruct (fanc c (length (nodes (g c))) n) eqn:E; auto.
+    destruct (fanc_sound c _ n E) as (m & Hmn & Hfm). rewrite (Hanc m Hmn) in Hfm. discriminate.
+Qed.
+
+Lemma eligibles_spec c :
+  cfg_ok c -> acyclic (g c) -> NoDup (eligibles c) /\ forall n, In n (eligibles c) <-> eligible c n.
+Proof.
+  intros Hc Ha. split.
+  - apply NoDup_filter. destruct Hc as [[Hnd _] _]. exact Hnd.
+  - intros n. unfold eligibles. rewrite filter_In. split.
+    + intros [Hn He]. apply eligibleb_spec; auto.
+    + intros He. pose proof He as (Hn & _). split; auto. apply eligibleb_spec; auto.
+Qed.
+
+(** C10, one worker: the run observes exactly min (k+1) (#eligible failing nodes) failures *)
+Theorem single_worker_exact c s k :
+  cfg_ok c -> acyclic (g c) -> workers c = 1 -> max_errors c = Some k ->
+  reachable c s -> final s -> intr s = None ->
+  nfail (hist s) = min (k + 1) (length (filter (eligibleb c) (nodes (g c)))).
+Proof.
+  intros Hc Ha W Hm Hr Hf Hi. destruct (eligibles_spec c Hc Ha) as [Hnd He].
+  apply (single_worker_exact_list c s k (eligibles c)); auto.
+Qed.
+
+(** any number of workers, computable form *)
+Theorem failures_final_b c s k :
+  cfg_ok c -> acyclic (g c) -> max_errors c = Some k -> reachable c s -> final s -> intr s = None ->
+  (errc s <= k /\ nfail (hist s) = length (eligibles c)) \/
+  (k < errc s /\ k + 1 <= nfail (hist s) <= k + workers c /\ nfail (hist s) <= length (eligibles c)).
+Proof.
+  intros Hc Ha Hm Hr Hf Hi. destruct (eligibles_spec c Hc Ha) as [Hnd He].
+  apply (failures_final c s k (eligibles c)); auto.
+Qed.
+
+(** max_errors = None: every eligible failure is observed *)
+Theorem none_fails_all c s :
+  cfg_ok c -> acyclic (g c) -> max_errors c = None -> reachable c s -> final s -> intr s = None ->
+  nfail (hist s) = length (eligibles c).
+Proof.
+  intros Hc Ha Hm Hr Hf Hi. destruct (eligibles_spec c Hc Ha) as [Hnd He].
+  apply (failures_all_if_not_stopped c s (eligibles c)); auto. unfold over_max. rewrite Hm. reflexivity.
+Qed.
